@@ -340,6 +340,67 @@ func runC04(c *Ctx) {
 		}
 	})
 
+	// (d2) one keyed HMAC object used for a whole series of messages with Reset in between (this is how PBKDF2, HKDF and
+	// the TLS PRF use it, and where a hash that implements state marshalling gets its saved state restored): message
+	// lengths sweep 0..140 so that every "bytes written since Reset" count around the block size occurs, in several
+	// write splits; every MAC of the series must equal the reference's
+	Par(c.Q(40, 1500), func(i int) {
+		r := c.Rng(fmt.Sprintf("hmacseries%d", i))
+		key := r.Bytes(r.Pick(0, 16, 32, 64, 65, 100))
+		a, b := hmac.New(sm3.New, key), hmac.New(ref.NewSM3, key)
+		start := r.Intn(141)
+		for step := 0; step < 150; step++ {
+			n := (start + step) % 141
+			if step%10 == 9 {
+				n = r.Pick(200, 1000, 4096)
+			}
+			msg := r.Bytes(n)
+			cut := 0
+			if n > 0 {
+				cut = r.Intn(n + 1)
+			}
+			var ga []byte
+			if pi := mon.Guard(func() {
+				a.Write(msg[:cut])
+				if step%3 == 0 {
+					_ = a.Sum(nil) // an intermediate Sum must not disturb the running MAC
+				}
+				a.Write(msg[cut:])
+				ga = a.Sum(nil)
+				a.Reset()
+			}); pi != nil {
+				rep.Violation("C04/HMAC-SM3/panic-in-series/"+pi.Func, pi.Value, nil)
+				return
+			}
+			b.Write(msg)
+			gb := b.Sum(nil)
+			b.Reset()
+			if !bytes.Equal(ga, gb) {
+				rep.Violation("C04/HMAC-SM3/mismatch-in-series-of-messages-on-one-object", fmt.Sprintf("message %d of the series (len %d, split at %d), keylen %d", step, n, cut, len(key)),
+					map[string]interface{}{"key": mon.Hex(key), "series_start_len": start, "failing_step": step, "msg": mon.Hex(msg)})
+				return
+			}
+		}
+		rep.Eval(fmt.Sprintf("hmac-series/key=%s", lenClass(len(key))))
+	})
+	// PBKDF2 over salt lengths 0..100 and several output lengths (more than one block of output re-uses the keyed HMAC)
+	Par(101, func(sl int) {
+		r := c.Rng(fmt.Sprintf("pbkdf2salt%d", sl))
+		pw, salt := r.Bytes(r.Pick(0, 8, 33)), r.Bytes(sl)
+		for _, kl := range []int{16, 32, 33, 64, 96} {
+			var pa []byte
+			if pi := mon.Guard(func() { pa = pbkdf2.Key(pw, salt, 2, kl, sm3.New) }); pi != nil {
+				rep.Violation("C04/PBKDF2-SM3/panic", pi.Value, map[string]interface{}{"pw": mon.Hex(pw), "salt": mon.Hex(salt), "klen": kl})
+				return
+			}
+			if pb := pbkdf2.Key(pw, salt, 2, kl, func() hash.Hash { return ref.NewSM3() }); !bytes.Equal(pa, pb) {
+				rep.Violation("C04/PBKDF2-SM3/mismatch", fmt.Sprintf("pwlen=%d saltlen=%d iter=2 klen=%d", len(pw), sl, kl), map[string]interface{}{"pw": mon.Hex(pw), "salt": mon.Hex(salt), "iter": 2, "klen": kl})
+				return
+			}
+		}
+		rep.Eval(fmt.Sprintf("pbkdf2/saltlen=%d", sl))
+	})
+
 	// (e) long streams: the bit-length trailer bytes are only exercised by long inputs
 	//     (>= 2 MiB touches length>>24, >= 512 MiB touches length>>32); fed incrementally to gmsm and to the streaming reference
 	sizes := []int{1<<20 + 13, 2<<20 + 5, 9<<20 + 77}
